@@ -174,6 +174,7 @@ pub fn run_case(sc: &Scenario, mode: &Mode) -> CaseOut {
         2 => out.count("scenarios_with_motif_ephemeral_chain"),
         3 => out.count("scenarios_with_motif_shared_ephemeral_concurrent"),
         4 => out.count("scenarios_with_motif_fan_in"),
+        100 => out.count("scenarios_mutated_from_regression_corpus"),
         _ => out.count("scenarios_without_motif"),
     }
     for (i, step) in sc.steps.iter().enumerate() {
